@@ -192,3 +192,35 @@ reg(
     TECHNIQUE="history monitoring: per-attempt wire/fault log checked by an independent retry-budget accountant; virtual-clock sleep recorder",
     REQUIRED_MONITORS={"quick": {"case": 8000, "budgets": 8000, "non_idempotent_rule": 8000, "sleeps": 8000, "outcome_shape": 8000, "status_retry_cause": 8000}, "thorough": {"case": 10**5, "budgets": 10**5}},
 )
+
+reg(
+    "C05",
+    RULE="(redirect graph, policy, placement, client, method): graphs over origins a.test:80, b.test:8080, https c.test:443 and a.test:8081 with chains/loops of 1-6 hops, codes {301,302,303,307,308}, Location forms {absolute, explicit default port, upper-case host, path-absolute, relative, relative with dot segments, scheme-relative, with fragment, with query, missing}; policy values {None, False, 0, 1, 2, Retry(redirect=k), Retry(total=k), both, raise_on_redirect False} placed at request level, second level (bare pool constructor / PoolManager / ProxyManager constructor), both, or redirect=False; GET and POST with body; systematic (policy x placement x client x length x code, form x code x client) plus random graphs; a case is that tuple; all non-trivial",
+    ASSUMPTIONS=COMMON_ASSUMPTIONS + [
+        "one-sided: following fewer redirects than the policy allows is counted, not a violation",
+        "effective policy: request-level value if not None, else the pool / manager constructor value, else Retry(3); ints mean total=n with raise_on_redirect, False means budget 0 and the 3xx is returned",
+        "Location resolution is judged against an RFC 3986 section 5 resolver written for this check (cross-checked against urllib.parse.urljoin on every case)",
+    ],
+    SHARDS={"quick": 8, "thorough": 16},
+    BUDGET={"quick": 60, "thorough": 420},
+    LEVEL_TEXT="Runtime monitoring of the ordered request log of an in-memory multi-origin network: each request urllib3 makes while following a redirect graph is compared with a reference walk (resolved target, method, body, content headers) and the number of follow-ups with the budget of the policy in effect; the way exhaustion surfaces is checked against raise_on_redirect.",
+    LEVEL_NOTE="Trusts the reference resolver/walker (about 80 lines) and the policy resolver; origins are distinguished by dial address and fake TLS flag.",
+    TECHNIQUE="history monitoring: request log vs reference walk of the redirect graph + redirect-budget monitor",
+    REQUIRED_MONITORS={"quick": {"case": 5000, "budget": 5000, "request_sequence": 5000, "ending": 4000}, "thorough": {"case": 10**5, "budget": 10**5}},
+)
+
+reg(
+    "C06",
+    RULE="(redirect chain, header set, container, placement, strip set, client): chain shapes A>B, A>B>A, A>B>relative, A>A:80>B, upper-case / explicit-default-port same-origin hops, port-only and scheme-only origin changes, scheme-relative and relative Locations, all 3xx codes; sensitive headers in 9 casings, custom header names; containers dict / HTTPHeaderDict (incl. repeated Cookie fields) supplied per request or as manager default; default and custom remove_headers_on_redirect given per request or on the manager constructor; PoolManager, ProxyManager (forwarding + tunnel, with proxy_headers) and a bare pool; optionally a failing first attempt; a case is that tuple; all non-trivial",
+    ASSUMPTIONS=COMMON_ASSUMPTIONS + [
+        "origin equality: scheme, lower-cased host, port with defaults filled in (explicit default port and letter case are the same origin)",
+        "dropping a sensitive header on a same-origin hop is counted, not a violation (the statement forbids forwarding, it does not demand forwarding)",
+        "content headers removed by a 303 method change are not 'other headers lost'",
+    ],
+    SHARDS={"quick": 8, "thorough": 16},
+    BUDGET={"quick": 60, "thorough": 420},
+    LEVEL_TEXT="Runtime monitoring of the per-origin request log: for each request of each redirect chain, headers named by the strip set in effect must be absent from the first cross-origin hop on, all other caller headers present and unaltered, proxy headers never inside a tunnel; a bare pool must raise HostChangedError with nothing dialled or sent elsewhere.",
+    LEVEL_NOTE="Trusts the independent origin-equality predicate and C05's reference walk for 'which hop is cross-origin'.",
+    TECHNIQUE="history monitoring: per-origin request log vs origin-equality + strip-set oracle",
+    REQUIRED_MONITORS={"quick": {"case": 5000, "request_headers": 8000, "pool_host_guard": 100}, "thorough": {"case": 10**5, "request_headers": 10**5}},
+)
